@@ -65,7 +65,8 @@ gave each agent one or two properties and a one-line list of all 154 changes
 seeded so far, asking for a mechanism, a code location *and* a triggering input
 that differ from every one of them; a thirteenth round (`Y01-r13` … `Y12-r13`)
 repeated that with the list grown to 166 and the properties paired differently,
-and a fourteenth (`X01-r14` … `X12-r14`, list of 178) once more. Two changes of the
+and a fourteenth (`X01-r14` … `X12-r14`, list of 178) and a fifteenth
+(`W01-r15` … `W12-r15`, list of 188) once more. Two changes of the
 fourteenth round were not kept because their triggers lie outside the inputs for
 which the properties hold on the unchanged tree: `X02` needs a third-party type
 whose own `%v` rendering differs from its `Error()` text (the library itself
@@ -93,7 +94,7 @@ suite is thin.
 Outcome: **every one of the {n} changes is reported as a VIOLATION by the quick
 tier of the check of the property it was written against** (seed 1). About a
 quarter of them were *missed* by the version of the monitor that existed when
-they arrived (round 1: 3, round 2: 8, round 3: 7, round 4: 2, round 5: 3, round 6: 4, round 7: 7, round 8: 4, round 9: 6, round 10: 2, round 11: 1, round 12: 5, round 13: 6, round 14: 4, plus two
+they arrived (round 1: 3, round 2: 8, round 3: 7, round 4: 2, round 5: 3, round 6: 4, round 7: 7, round 8: 4, round 9: 6, round 10: 2, round 11: 1, round 12: 5, round 13: 6, round 14: 4, round 15: 5, plus two
 regression found by re-running every stored change against its own check after
 the harness had changed — `tools/diag.sh`: `K07-r5` and `C20-r2` had been caught
 through coincidences of the generator; the tool also prints how many violation
@@ -127,6 +128,10 @@ of the API.
 * **C02** — the `markempty` kind: `Mark` with a reference whose text is empty
   (`T08-r7`); the unknowing processes of every second case do not link the
   payload message types either (see C04).
+* **C03** — one case in ten ends its main chain in a third-party `SafeFormatter`
+  leaf that prints nothing in short mode while its `Error()` carries unsafe text
+  (`silentsafeleaf`, weight 0: its `%v` is not its `Error()`, so it is placed by
+  C03 only, which asks nothing but the absence of the unsafe text) (`W02-r15`).
 * **C03 / C06** — two more stages, *messages as other versions of the library
   would send them*: `from-old-peer` (barriers under their previous type name
   `*barriers.barrierError` with a plain-text message; `V05-r9`) and
@@ -148,7 +153,8 @@ of the API.
   way in and restored on the way out, as for a binary built without the package
   that defines the type (`T06-r7`); one `elidewrap` node in three overrides its cause's message with the
   *empty* string (`C04-r2`).
-* **C07** — reachability also through every layer's own `Unwrap()` / `Cause()`
+* **C07** — one case in twelve puts `HandledWithMessage(e, "")`, an override
+  with the EMPTY message, at the root (`W04-r15`); reachability also through every layer's own `Unwrap()` / `Cause()`
   methods and the standard library's walk; `Unwrap()` must agree with `Cause()`
   and with the visible cause (`C07-r2`); the `newfew` kind, `Newf("… %v … %w",
   hidden, cause)`: the `%w` operand is not the first error argument (`C07-r3`).
@@ -168,7 +174,8 @@ of the API.
   `%` and no argument (`A12-r4`); the nil sweep also runs 23 "rich argument" paths (tagged context,
   error-typed format arguments, non-empty link, package domain, `codes.OK` /
   `Unknown`, empty message) (`C10-r3`); `Newf` with `%[1]w` instead of `%w`
-  (`Y07-r13`); the `handledmsgf0` kind,
+  (`Y07-r13`); the kind `wrapfempty`, `Wrapf(err, "%s", "")`, whose prefix is not
+  literally empty but formats to the empty string (`W05-r15`); the `handledmsgf0` kind,
   `HandledWithMessagef` with an escaped `%` and no argument, which C06 and C07
   use as well (`G06-r6`).
 * **C11** — the `tagsafe` kind: `Safe()`, nil and int tag values (`C11`); the
@@ -201,7 +208,9 @@ of the API.
   (`C13-r2`); the `joinbare` kind, the sub-package's `join.Join` without a stack
   layer, so that joins nest directly (`T09-r7`); `%+v` of the *decoded* error
   (printed directly for library and opaque outermost types) must have an entry
-  per visible layer at every stage (`K07-r5`, regression).
+  per visible layer at every stage (`K07-r5`, regression). The builder yields one
+  object for one descriptor node, and one multi-cause node in eight gets the SAME
+  node twice in adjacent positions, `Join(e, e)` (`W12-r15`).
 * **C09** — `*net.OpError` with only a local address and with no address
   (`operrsrc`, `operrnone`) (`T11-r7`); the kind `oldfmtelide`, a foreign wrapper
   with an old-style `Format` method whose `Error()` replaces the cause's text
@@ -235,7 +244,8 @@ of the API.
   version uses the keys of the types registered so far, as `init()` code does
   (`K03-r5`: a type-details cache with incomplete invalidation); a move that
   changes only the import path — package `verifharness/migold` declares
-  `package mig` with the same type name (`Y10-r13`).
+  `package mig` with the same type name (`Y10-r13`); the very same migration
+  declared twice must be rejected like a conflicting one (`W09-r15`).
 * **C18** — the shared value stays *cold*: the "executed alone" reference is
   computed on a twin built from the same descriptor at the same call site, and
   again on the shared value afterwards (`C18`); every operation is also run as
